@@ -588,13 +588,28 @@ def _safe_native(f, x):
         return float('nan')
 
 
+def _as_var(t, hint):
+    """A variable equal to the term t (keeps the trigonometric definitions over few variables)."""
+    if t.op == 'var':
+        return t
+    c = ctx()
+    key = ('asvar', t.id)
+    hit = c.names.get(key)
+    if hit is not None:
+        return hit
+    v = c.new_var(hint)
+    c.add_def([v], E.cmp('==', v, t), [lambda ev: ev(t)])
+    c.names[key] = v
+    return v
+
+
 def angle_of(re, im):
     """theta = arg(re + i im) with purified unit vector (c, s) and modulus r."""
     c = ctx()
     x, y = R.lift(re), R.lift(im)
     if x.conc() and y.conc():
         return R(math.atan2(y.n, x.n))
-    xt, yt = x.term(), y.term()
+    xt, yt = _as_var(x.term(), 'argx'), _as_var(y.term(), 'argy')
     lst = c.apps.setdefault('arg', [])
     for a, v in lst:
         if a[0] is xt and a[1] is yt:
